@@ -748,7 +748,7 @@ def move_bytes(fobj, dest: int, src: int, count: int,
         while count - moved:
             this_move = min(BUFFER_SIZE, count - moved)
             fobj.seek(src + moved)
-            buf = fobj.read(this_move)
+            buf = read_full(fobj, this_move)
             fobj.seek(dest + moved)
             fobj.write(buf)
             moved += this_move
@@ -757,7 +757,7 @@ def move_bytes(fobj, dest: int, src: int, count: int,
         while count:
             this_move = min(BUFFER_SIZE, count)
             fobj.seek(src + count - this_move)
-            buf = fobj.read(this_move)
+            buf = read_full(fobj, this_move)
             fobj.seek(count + dest - this_move)
             fobj.write(buf)
             count -= this_move
